@@ -33,9 +33,13 @@ YDOC7 = "n: [4]\na: 7\n"
 YDOC8 = "a: x\ns: double\ne: .b style |= \"single\"\nb: y\nt: single\ng: \"!!str\"\n"
 YDOC9 = "s: hello\np: \"^h\"\nk: s\nl: [a, b, c]\nn: 1\na: x\nb: y\nt: single\ng: \"!!int\"\ne: .a tag = \"!!x\"\n"
 YDOC10 = "s: hello\np: z$\nk: q\nl: [x, y, z]\nn: 2\na: x\nb: y\nt: double\ng: \"!!str\"\ne: .b anchor |= \"k\"\n"
+YDOC11 = "# generated header\na: 1\nb: x\n"
+YDOC12 = "b: 2\nc: y\n"
+YDOC13 = "# h1\n# h2\n- [1, 2]\n- [3, 4]\n"
+YDOC14 = "- [5, 6]\n"
 YDOC5 = "y: *anc\n"      # alias without anchor: an error unless anchors leak from an earlier stream
 INPUTS = {
-    "yaml": [YDOC1, YDOC2, YDOC3, YDOC4, YDOC5, YDOC6, YDOC6, YDOC7, YDOC8, YDOC9, YDOC10, ""],
+    "yaml": [YDOC1, YDOC2, YDOC3, YDOC4, YDOC5, YDOC6, YDOC6, YDOC7, YDOC8, YDOC9, YDOC10, YDOC11, YDOC11, YDOC12, YDOC12, YDOC13, YDOC14, ""],
     "json": ['{"a": 1, "b": [2, 1], "c": {"y": 1, "x": 2}, "s": "j"}', '{"a": 5, "b": [], "c": {}, "s": ""} {"a": 6, "b": [1], "c": {"q": 1}, "s": "k"}', '{"a": 1} {bad'],
     "xml": ["<r><a>1</a><b>x</b><b>y</b><c><y>1</y></c><s>t</s></r>", "<?xml version=\"1.0\"?>\n<!-- c -->\n<a>2</a>", "<a>1</a><b>"],
     "props": ["a = 1\nb.0 = x\nc.y = 2\ns = p\n", "# c\na=2\n"],
@@ -76,7 +80,7 @@ GENERIC = [".", ".a", ".a, .s", "keys", "to_entries", ".s | envsubst(ne)", "with
 LOADS = [("load(\"%s\").a", "ld1.yml", "a: L1\n"), ("load(\"%s\").a", "ld2.yml", "a: L2\n---\na: L2b\n"),
          ("load_xml(\"%s\")", "ld1.xml", "<q>1</q>"), ("load_props(\"%s\")", "ld1.properties", "k = v\n"),
          ("load_base64(\"%s\")", "ld1.b64", "aGk="), ("load_str(\"%s\")", "ld1.txt", "txt\n")]
-OUTS = ["yaml", "yaml", "json", "props", "xml"]
+OUTS = ["yaml", "yaml", "json", "props", "xml", "xml", "lua", "shell", "csv", "tsv", "toml"]
 
 
 def envtoks(expr):
@@ -132,7 +136,8 @@ def gen_step(rng, pool):
     else:
         expr = rng.choice(EXPRS)
     s = {"expr": expr, "input": text, "in": fmt, "out": rng.choice(OUTS),
-         "all": rng.random() < 0.3, "reuse_tree": rng.random() < 0.5, "reuse_dec": rng.random() < 0.55}
+         "all": rng.random() < 0.3, "reuse_tree": rng.random() < 0.5, "reuse_dec": rng.random() < 0.55,
+         "reuse_enc": rng.random() < 0.5}
     s["pf"] = rng.choice([0, 0, 0, 1, 2, 3]) if rng.random() < 0.6 else 0
     return s
 
@@ -140,6 +145,7 @@ def gen_step(rng, pool):
 def wire(step):
     """the harness request for a step"""
     w = {k: step[k] for k in ("expr", "input", "in", "out", "all", "reuse_tree", "reuse_dec")}
+    w["reuse_enc"] = bool(step.get("reuse_enc"))
     if step.get("pf"):
         w.update(PREFS[step["pf"]])
     return w
@@ -481,6 +487,13 @@ def run(chk):
         [st(".p as $p | .s | test($p)", YDOC9), st(".p as $p | .s | test($p)", YDOC10), st(".p as $p | .s | test($p)", YDOC9)],
         [st(".p as $p | .s | sub($p; \"X\")", YDOC10), st(".p as $p | .s | sub($p; \"X\")", YDOC9)],
     ]
+    # one Encoder instance over documents with and without leading comments, every output format
+    for of in ("xml", "props", "lua", "shell", "json", "yaml", "toml"):
+        fixed.append([st(".", YDOC11, out=of, reuse_enc=True, reuse_tree=False), st(".", YDOC12, out=of, reuse_enc=True, reuse_tree=False),
+                      st(".", YDOC11, out=of, reuse_enc=True, reuse_tree=False), st(".a", YDOC12, out=of, reuse_enc=True, reuse_tree=False)])
+    for of in ("csv", "tsv"):
+        fixed.append([st(".", YDOC13, out=of, reuse_enc=True, reuse_tree=False), st(".", YDOC14, out=of, reuse_enc=True, reuse_tree=False),
+                      st(".", YDOC13, out=of, reuse_enc=True, reuse_tree=False)])
     histories = list(fixed)
 
     def targeted():
@@ -513,6 +526,7 @@ def run(chk):
             if rng.random() < 0.4:
                 s["reuse_tree"] = rng.random() < 0.6
                 s["reuse_dec"] = rng.random() < 0.6
+                s["reuse_enc"] = rng.random() < 0.6
             if rng.random() < 0.2:
                 s["input"] = rng.choice(INPUTS[s["in"]])
             h.append(s)
